@@ -47,10 +47,16 @@ Proof. unfold letter. destruct b; vm_compute; intros H; try discriminate H; refl
     everything else (editor flavour, punctuation tables, translators, source facts) is arbitrary *)
 Definition no_letter_punct (cfg : config) : Prop :=
   forall b, letter b -> pd_assoc (cf_punct_half cfg) b = None /\ pd_assoc (cf_punct_full cfg) b = None.
+(** round 4: each chain may carry ascii_composer in front of the processors and ascii_segmentor in front of the
+    segmentors (their stock positions); [has_ac] / [has_as] say whether they do *)
+Definition has_ac (cfg : config) : bool := match cf_processors cfg with PAsciiComposer :: _ => true | _ => false end.
+Definition has_as (cfg : config) : bool := match cf_segmentors cfg with SgAscii :: _ => true | _ => false end.
+Definition ac_pre (cfg : config) : list proc_id := if has_ac cfg then [PAsciiComposer] else [].
+Definition as_pre (cfg : config) : list segm_id := if has_as cfg then [SgAscii] else [].
 Definition edit_chain (cfg : config) : Prop :=
-  (cf_processors cfg = [PSpeller; PSelector; PNavigator; PEditor] /\ cf_segmentors cfg = [SgAbc; SgFallback]) \/
-  (cf_processors cfg = [PSpeller; PPunctuator; PSelector; PNavigator; PEditor] /\
-   cf_segmentors cfg = [SgAbc; SgPunct; SgFallback] /\ no_letter_punct cfg).
+  (cf_processors cfg = ac_pre cfg ++ [PSpeller; PSelector; PNavigator; PEditor] /\ cf_segmentors cfg = as_pre cfg ++ [SgAbc; SgFallback]) \/
+  (cf_processors cfg = ac_pre cfg ++ [PSpeller; PPunctuator; PSelector; PNavigator; PEditor] /\
+   cf_segmentors cfg = as_pre cfg ++ [SgAbc; SgPunct; SgFallback] /\ no_letter_punct cfg).
 Definition edit_cfg (cfg : config) : Prop :=
   cf_alphabet cfg = lower_alphabet /\ cf_delims cfg = [x20; x27] /\ cf_initials cfg = lower_alphabet /\
   cf_finals cfg = [] /\ cf_use_space cfg = false /\ cf_page_size cfg = 5%Z /\ cf_select_keys cfg = [] /\
@@ -129,17 +135,22 @@ Proof. intros Hn Hb. unfold punct_lookup. destruct (Hn b Hb) as (A & B). destruc
 
 (** one round of the segmentors over an all-letters input that is not yet covered *)
 Lemma round_letters o h X segs :
+  opts_get o opt_ascii_mode = false ->
   Forall letter X -> X <> [] ->
   (segs = [] \/ exists g, segs = [g] /\ seg_ok g /\ s_end g < length X) ->
   seg_round cfg o h (mkSegm X segs) = mkSegm X [fresh_seg (length X)].
 Proof.
-  intros Hl Hne Hs.
+  intros Hoa Hl Hne Hs.
   assert (Hround : seg_round cfg o h (mkSegm X segs) = fallback_proceed (abc_proceed cfg (mkSegm X segs)) \/
                    (no_letter_punct cfg /\
                     seg_round cfg o h (mkSegm X segs) =
                     (let (sg2, cont) := punct_proceed cfg o h (abc_proceed cfg (mkSegm X segs)) in
                      if cont then fallback_proceed sg2 else sg2))).
-  { unfold seg_round. destruct Hchain as [(_ & ->) | (_ & -> & Hn)]; [left; reflexivity | right; split; [exact Hn|]].
+  { unfold seg_round.
+    assert (Has : forall rest sg, run_segmentors cfg o h (as_pre cfg ++ rest) sg = run_segmentors cfg o h rest sg).
+    { intros rest sg. unfold as_pre. destruct (has_as cfg); [|reflexivity].
+      cbn [app run_segmentors segmentor_proceed]. unfold ascii_proceed. rewrite Hoa. reflexivity. }
+    destruct Hchain as [(_ & ->) | (_ & -> & Hn)]; rewrite Has; [left; reflexivity | right; split; [exact Hn|]].
     cbn [run_segmentors segmentor_proceed]. destruct (punct_proceed cfg o h (abc_proceed cfg (mkSegm X segs))) as [sg2 cont].
     destruct cont; reflexivity. }
   assert (HX : 0 < length X) by (destruct X; [congruence | cbn; lia]).
@@ -167,6 +178,7 @@ Proof.
 Qed.
 
 Lemma calc_loop_letters o h fuel caret X segs :
+  opts_get o opt_ascii_mode = false ->
   Forall letter X ->
   (segs = [] \/ exists g, segs = [g] /\ seg_ok g /\ s_end g <= length X) ->
   exists l, calc_loop cfg o h (S fuel) caret (mkSegm X segs) = (mkSegm X l, true) /\
@@ -175,7 +187,7 @@ Lemma calc_loop_letters o h fuel caret X segs :
                           /\ (s_status g = SGuess \/ s_status g = SVoid) /\ s_sel g = 0%N
                           /\ s_start g <> s_end g)).
 Proof.
-  intros Hl Hs. rewrite calc_loop_unfold. unfold has_finished. cbn [sg_input].
+  intros Hoa Hl Hs. rewrite calc_loop_unfold. unfold has_finished. cbn [sg_input].
   destruct X as [|b X'].
   - assert (segs = []) as ->.
     { destruct Hs as [?|(g & -> & (?&?&?&?) & Hle)]; [assumption|]. cbn in Hle. lia. }
@@ -192,7 +204,7 @@ Proof.
     + apply Nat.leb_gt in Efin.
       assert (Hs' : segs = [] \/ exists g, segs = [g] /\ seg_ok g /\ s_end g < length X).
       { destruct Hs as [-> | (g & -> & Hok & Hle)]; [auto|]. right. exists g. cbn [cur_end sg_segs] in Efin. auto. }
-      cbv zeta. rewrite (round_letters o h X segs Hl Hne Hs').
+      cbv zeta. rewrite (round_letters o h X segs Hoa Hl Hne Hs').
       assert (cur_start (mkSegm X segs) = 0) as ->.
       { destruct Hs' as [-> | (g & -> & (H0 & _) & _)]; [reflexivity | exact H0]. }
       cbn [cur_end sg_segs fresh_seg seg_with_tags new_segment s_end].
@@ -208,6 +220,7 @@ Proof.
 Qed.
 
 Lemma calc_segmentation_letters o h caret X segs :
+  opts_get o opt_ascii_mode = false ->
   Forall letter X ->
   (segs = [] \/ exists g, segs = [g] /\ seg_ok g /\ s_end g <= length X) ->
   exists l, calc_segmentation cfg o h caret (mkSegm X segs) = (mkSegm X l, true) /\
@@ -215,8 +228,8 @@ Lemma calc_segmentation_letters o h caret X segs :
      (X <> [] /\ exists g, l = [g] /\ s_start g = 0 /\ s_end g = length X
                           /\ (s_status g = SGuess \/ s_status g = SVoid) /\ s_sel g = 0%N)).
 Proof.
-  intros Hl Hs. unfold calc_segmentation. cbn [sg_input].
-  destruct (calc_loop_letters o h (length X) caret X segs Hl Hs) as (l & -> & Hr).
+  intros Hoa Hl Hs. unfold calc_segmentation. cbn [sg_input].
+  destruct (calc_loop_letters o h (length X) caret X segs Hoa Hl Hs) as (l & -> & Hr).
   destruct Hr as [(-> & ->) | (Hne & g & -> & H0 & H1 & H2 & H3 & H4)].
   - exists []. cbn. auto.
   - exists [g]. cbn [sg_segs]. unfold trim. cbn [sg_segs].
@@ -285,7 +298,9 @@ Proof.
         cbn in E. discriminate.
       + intros ->. now rewrite firstn_nil. }
   destruct HX as (X & l & -> & HlX & HXnil & Hl1).
-  destruct (calc_segmentation_letters (cx_opts c) (cx_hist c) (cx_caret c) X l HlX Hl1) as (l2 & -> & Hr).
+  assert (Hoa : opts_get (cx_opts c) opt_ascii_mode = false).
+  { rewrite Ho. unfold init_opts. cbn [opts_get]. replace (bytes_eqb opt_auto_commit opt_ascii_mode) with false by reflexivity. reflexivity. }
+  destruct (calc_segmentation_letters (cx_opts c) (cx_hist c) (cx_caret c) X l Hoa HlX Hl1) as (l2 & -> & Hr).
   destruct Hr as [(-> & ->) | (Hne & g & -> & H0 & H1 & H2 & H3)].
   - (* empty input *)
     cbn. unfold ctx_ok. cbn. repeat split; auto.
@@ -794,20 +809,60 @@ Qed.
 Definition chain4 : list (state -> key -> state * presult) :=
   [speller_process cfg translate; selector_process cfg translate; navigator_process cfg translate; editor_process cfg translate].
 
-Lemma run_chain kb s k :
-  (forall s', punctuator_process cfg translate s' k = (s', PNoop)) \/
-  (exists s', speller_process cfg translate s k = (s', PAccepted)) ->
-  run_processors (processors cfg translate kb) s k = run_processors chain4 s k.
+(** ProcessKey over the four-processor chain: what every chain of [edit_chain] reduces to for the keys of the alphabet *)
+Definition pk4 (s : state) (k : key) : state * bool :=
+  let (s1, ret) := run_processors chain4 s k in
+  match ret with
+  | PAccepted => (s1, true)
+  | _ =>
+    let s1 := on_ctx s1 (fun c => ctx_with_hist c (hist_push_key (cx_hist c) k)) in
+    let (s2, ret2) := shape_process s1 k in
+    match ret2 with PAccepted => (s2, true) | _ => (s2, false) end
+  end.
+
+(** the ascii composer, when it stands in front, lets every key of the alphabet through (ascii_mode is off) and only
+    clears its pressed-flags *)
+Definition pre (s : state) : state := if has_ac cfg then ac_unpress s else s.
+
+Lemma ascii_noop s code :
+  ((97 <= code <= 122)%Z \/ special code) -> get_option (st_ctx s) opt_ascii_mode = false ->
+  ascii_composer_process cfg translate s (mkKey code 0) = (ac_unpress s, PNoop).
 Proof.
-  intros H. unfold processors, chain4. destruct Hchain as [(-> & _) | (-> & _)]; [reflexivity|].
-  cbn [map proc_of run_processors]. destruct H as [Hn | (s' & ->)]; [|reflexivity].
-  destruct (speller_process cfg translate s k) as [s1 r1]. destruct r1; try reflexivity. rewrite Hn. reflexivity.
+  intros Hc Ha. unfold ascii_composer_process.
+  cbn [k_shift k_ctrl k_alt k_super k_release k_mod k_code Z.testbit andb orb].
+  assert (Hne : forall x, In x [XK_Caps_Lock; XK_Eisu_toggle; XK_Shift_L; XK_Shift_R; XK_Control_L; XK_Control_R] -> (code =? x)%Z = false).
+  { intros x Hx. apply Z.eqb_neq. intros ->. destruct Hc as [Hc | Hc].
+    - repeat (destruct Hx as [<- | Hx]; [vm_compute in Hc; destruct Hc as [A B]; try (apply A; reflexivity); try (apply B; reflexivity)|]); destruct Hx.
+    - repeat (destruct Hx as [<- | Hx]; [repeat (destruct Hc as [Hc | Hc]; [discriminate Hc|]); destruct Hc|]); destruct Hx. }
+  assert (Hcaps : (if ac_style_is_noop (ac_caps_style cfg) then (s, PNoop) else ac_process_caps_lock cfg translate s (mkKey code 0)) = (s, PNoop)).
+  { destruct (ac_style_is_noop (ac_caps_style cfg)); [reflexivity|]. unfold ac_process_caps_lock. cbn [k_code k_caps k_mod Z.testbit].
+    rewrite (Hne XK_Caps_Lock) by (cbn; auto). reflexivity. }
+  rewrite Hcaps. cbn [presult_is_noop negb].
+  rewrite (Hne XK_Eisu_toggle) by (cbn; auto 10). cbv zeta.
+  rewrite (Hne XK_Shift_L), (Hne XK_Shift_R), (Hne XK_Control_L), (Hne XK_Control_R) by (cbn; auto 10).
+  cbn [orb andb]. change (st_ctx (ac_unpress s)) with (st_ctx s). rewrite Ha. reflexivity.
 Qed.
 
-Lemma process_key_ok s b k :
+Lemma run_chain kb s code :
+  ((97 <= code <= 122)%Z \/ special code) -> get_option (st_ctx s) opt_ascii_mode = false ->
+  (forall s', punctuator_process cfg translate s' (mkKey code 0) = (s', PNoop)) \/
+  (exists s', speller_process cfg translate (pre s) (mkKey code 0) = (s', PAccepted)) ->
+  run_processors (processors cfg translate kb) s (mkKey code 0) = run_processors chain4 (pre s) (mkKey code 0).
+Proof.
+  intros Hc Ha H. unfold processors, pre.
+  assert (Hpre : forall rest, run_processors (map (proc_of cfg translate kb) (ac_pre cfg ++ rest)) s (mkKey code 0)
+                            = run_processors (map (proc_of cfg translate kb) rest) (if has_ac cfg then ac_unpress s else s) (mkKey code 0)).
+  { intros rest. unfold ac_pre. destruct (has_ac cfg); [|reflexivity].
+    cbn [app map proc_of run_processors]. rewrite (ascii_noop s code Hc Ha). reflexivity. }
+  unfold chain4. destruct Hchain as [(-> & _) | (-> & _)]; rewrite Hpre; [reflexivity|].
+  cbn [map proc_of run_processors]. fold (pre s). destruct H as [Hn | (s' & ->)]; [|reflexivity].
+  destruct (speller_process cfg translate (pre s) (mkKey code 0)) as [s1 r1]. destruct r1; try reflexivity. rewrite Hn. reflexivity.
+Qed.
+
+Lemma pk4_ok s b k :
   good s b -> ekey_ok cfg k = true ->
-  good (fst (process_key cfg translate s (mkKey (key_code_of k) 0))) (buf_step b k) /\
-  snd (process_key cfg translate s (mkKey (key_code_of k) 0)) = handled_spec b k.
+  good (fst (pk4 s (mkKey (key_code_of k) 0))) (buf_step b k) /\
+  snd (pk4 s (mkKey (key_code_of k) 0)) = handled_spec b k.
 Proof.
   intros ((Hok & Hin & Hca) & Hcm) Hk.
   destruct b as [t c]. cbn [b_text b_caret] in Hin, Hca. subst t c.
@@ -818,8 +873,7 @@ Proof.
     assert (Hch : letter ch).
     { unfold ekey_ok in Hk. rewrite Halpha, Hinitials in Hk.
       apply andb_prop in Hk. apply Hk. }
-    unfold process_key, kb_fuel. cbn [process_key_n]. unfold process_key_gen.
-    rewrite run_chain by (right; eexists; apply (speller_letter s ch Hch)).
+    unfold pk4.
     unfold chain4. cbn [run_processors key_code_of].
     rewrite (speller_letter s ch Hch). cbv beta iota. cbn [fst snd].
     destruct (push_input_ok (st_ctx s) ch Hok Hch) as (P1 & P2 & P3).
@@ -832,8 +886,7 @@ Proof.
   - (* one of the seven other keys *)
     pose proof (special_of k Elet) as Hsp.
     assert (Hcar : car <= length inp) by apply Hok.
-    unfold process_key, kb_fuel. cbn [process_key_n]. unfold process_key_gen.
-    rewrite run_chain by (left; intros s'; apply punctuator_nonletter, special_ge, Hsp).
+    unfold pk4.
     unfold chain4. cbn [run_processors].
     rewrite (speller_nonletter s _ (special_ge _ Hsp)). cbv beta iota.
     rewrite (selector_special s _ Hok Hsp). cbv beta iota.
@@ -906,6 +959,30 @@ Proof.
   unfold view_of. destruct (ctx_commit_text (st_ctx s)). destruct (menu_view cfg (st_ctx s)). cbn. auto.
 Qed.
 
+Lemma process_key_ok s b k :
+  good s b -> ekey_ok cfg k = true ->
+  good (fst (process_key cfg translate s (mkKey (key_code_of k) 0))) (buf_step b k) /\
+  snd (process_key cfg translate s (mkKey (key_code_of k) 0)) = handled_spec b k.
+Proof.
+  intros Hg Hk.
+  assert (Hgp : good (pre s) b) by (unfold pre; destruct (has_ac cfg); exact Hg).
+  assert (Ha : get_option (st_ctx s) opt_ascii_mode = false).
+  { destruct Hg as ((Hok & _) & _). unfold get_option. rewrite (proj1 (proj2 (proj2 (proj2 Hok)))). unfold init_opts.
+    cbn [opts_get]. replace (bytes_eqb opt_auto_commit opt_ascii_mode) with false by reflexivity. reflexivity. }
+  assert (Hrun : forall kb, run_processors (processors cfg translate kb) s (mkKey (key_code_of k) 0)
+                          = run_processors chain4 (pre s) (mkKey (key_code_of k) 0)).
+  { intros kb. destruct (ekey_is_letter k) eqn:Elet.
+    - destruct k as [ch| | | | | | |]; try discriminate Elet.
+      assert (Hch : letter ch).
+      { unfold ekey_ok in Hk. rewrite Halpha, Hinitials in Hk. apply andb_prop in Hk. apply Hk. }
+      apply run_chain; [left; apply letter_code, Hch | exact Ha|].
+      right. eexists. apply (speller_letter (pre s) ch Hch).
+    - pose proof (special_of k Elet) as Hsp.
+      apply run_chain; [right; exact Hsp | exact Ha|]. left. intros s'. apply punctuator_nonletter, special_ge, Hsp. }
+  unfold process_key, kb_fuel. cbn [process_key_n]. unfold process_key_gen. rewrite Hrun.
+  exact (pk4_ok (pre s) b k Hgp Hk).
+Qed.
+
 Lemma step_key_ok s b k :
   good s b -> ekey_ok cfg k = true ->
   good (fst (step cfg translate s (op_of_ekey k))) (buf_step b k) /\
@@ -972,6 +1049,15 @@ Proof.
   repeat (split; [reflexivity|]). right. split; [reflexivity|]. split; [reflexivity|]. apply synth_no_letter_punct.
 Qed.
 
+Lemma synth_acedit_no_letter_punct fluid dlog : no_letter_punct (synth_acedit_cfg fluid dlog).
+Proof.
+  intros b Hb. unfold letter in Hb. destruct fluid; destruct b; vm_compute in Hb; try discriminate Hb; split; reflexivity.
+Qed.
+Lemma synth_acedit_edit_cfg fluid dlog : edit_cfg (synth_acedit_cfg fluid dlog).
+Proof.
+  repeat (split; [reflexivity|]). right. split; [reflexivity|]. split; [reflexivity|]. apply synth_acedit_no_letter_punct.
+Qed.
+
 (** the statement as it was before the chains became configurable (synth_express / synth_fluid) *)
 Theorem edit_refines_buffer (fluid dlog : bool) (translate : bytes -> seginfo -> list cand) keys :
   Forall (fun k => ekey_ok (synth_cfg fluid dlog) k = true) keys ->
@@ -992,3 +1078,13 @@ Theorem edit_refines_buffer_punct (fluid dlog : bool) (translate : bytes -> segi
   st_commit (fst r) = [] /\
   map edit_summary (snd r) = map (fun x => Some (x, [])) (buf_trace buf_empty keys).
 Proof. apply edit_refines_buffer_gen, synth_punct_edit_cfg. Qed.
+
+(** round 4: with ascii_composer and ascii_segmentor at their stock positions around the punctuator chain *)
+Theorem edit_refines_buffer_ascii (fluid dlog : bool) (translate : bytes -> seginfo -> list cand) keys :
+  Forall (fun k => ekey_ok (synth_acedit_cfg fluid dlog) k = true) keys ->
+  let r := run (synth_acedit_cfg fluid dlog) translate (map op_of_ekey keys) in
+  cx_input (st_ctx (fst r)) = b_text (buf_run keys) /\
+  cx_caret (st_ctx (fst r)) = b_caret (buf_run keys) /\
+  st_commit (fst r) = [] /\
+  map edit_summary (snd r) = map (fun x => Some (x, [])) (buf_trace buf_empty keys).
+Proof. apply edit_refines_buffer_gen, synth_acedit_edit_cfg. Qed.
